@@ -20,6 +20,7 @@ WRAP = ['nowrap', 'wrap', 'wrap-reverse']
 
 # residual deviations of the implementation from css-flexbox / css-align, by trigger region (reported)
 SIG_COLLR = 'flex:justify-left-right-column'          # open known finding (e)
+SIG_AUTO_TB = 'flex:auto-margin-top-bottom-zeroed'   # step 7 sets auto margin_top/bottom to 0 before step 12/13
 SIG_STRETCH_REV = 'flex:justify-stretch-reverse'      # stretch must behave as flex-start, also under *-reverse
 SIG_FALLBACK_REV = 'flex:fallback-flex-start-reverse'  # space-between fallback is flex-start = main-start side
 
@@ -42,6 +43,7 @@ def gen_row(rng, profile):
     """A flex row container with fixed-size, text-free items.  profile: 'plain' (no trigger of a known
     deviation), 'wide' (everything)."""
     wide = profile == 'wide'
+    col = rng.random() < 0.3
     n = rng.choice([1, 2, 2, 3, 3, 3, 4, 5, 6, 8])
     W = rng.choice([100, 200, 300, 300, 400, 500, rng.randint(50, 600)])
     gap = rng.choice([0, 0, 4, 10, 16, 20])
@@ -82,17 +84,28 @@ def gen_row(rng, profile):
         if wide and rng.random() < 0.15:
             it['pl'], it['pr'] = rng.choice([0, 4, 10]), rng.choice([0, 6])
         items.append(it)
-    return {'W': W, 'gap': gap, 'wrap': wrap, 'reverse': reverse, 'kw': kw, 'items': items,
+    return {'col': col, 'W': W, 'gap': gap, 'wrap': wrap, 'reverse': reverse, 'kw': kw, 'items': items,
             'ox': [rng.choice([0, 7]), rng.choice([0, 2]), rng.choice([0, 3])]}
 
 
 def row_html(c):
-    ml, bl, pl = c['ox']
-    st = ['display:flex', 'width:%dpx' % c['W'], 'column-gap:%dpx' % c['gap'], 'row-gap:0',
-          'flex-direction:%s' % ('row-reverse' if c['reverse'] else 'row'), 'flex-wrap:%s' % WRAP[c['wrap']],
-          'justify-content:%s' % c['kw'], 'align-items:flex-start', 'margin-left:%dpx' % ml,
-          'border-left:%dpx solid' % bl, 'padding-left:%dpx' % pl]
-    out = ['<style>@page{size:2000px 2000px;margin:0}body{margin:0}#c>div{height:10px}</style>',
+    """main axis: x (row) or y (column, definite height).  The item dicts use the row names
+    (ml/mr/bl/br/pl/pr/min/max = start/end side and main size) for both directions."""
+    col = c.get('col', False)
+    o1, o2, o3 = c['ox']
+    if col:
+        M, S, E, XS, XV = 'height', 'top', 'bottom', 'width', '400px'
+        dirn = 'column-reverse' if c['reverse'] else 'column'
+        gaps = ['row-gap:%dpx' % c['gap'], 'column-gap:0']
+    else:
+        M, S, E, XS, XV = 'width', 'left', 'right', 'height', 'auto'
+        dirn = 'row-reverse' if c['reverse'] else 'row'
+        gaps = ['column-gap:%dpx' % c['gap'], 'row-gap:0']
+    st = ['display:flex', '%s:%dpx' % (M, c['W']), '%s:%s' % (XS, XV)] + gaps + [
+        'flex-direction:%s' % dirn, 'flex-wrap:%s' % WRAP[c['wrap']],
+        'justify-content:%s' % c['kw'], 'align-items:flex-start', 'margin-%s:%dpx' % (S, o1),
+        'border-%s:%dpx solid' % (S, o2), 'padding-%s:%dpx' % (S, o3)]
+    out = ['<style>@page{size:3000px 3000px;margin:0}body{margin:0}#c>div{%s:10px}</style>' % XS,
            '<div id="c" style="%s">' % ';'.join(st)]
     for it in c['items']:
         s = ['flex-grow:%s' % fnum(it['grow']), 'flex-shrink:%s' % fnum(it['shrink'])]
@@ -102,17 +115,17 @@ def row_html(c):
         elif kind == 'pct':
             s.append('flex-basis:%s%%' % fnum(v))
         else:
-            s.append('flex-basis:auto;width:%spx' % fnum(v))
+            s.append('flex-basis:auto;%s:%spx' % (M, fnum(v)))
         if it['min'] is not None:
-            s.append('min-width:%spx' % fnum(it['min']))
+            s.append('min-%s:%spx' % (M, fnum(it['min'])))
         if it['max'] is not None:
-            s.append('max-width:%spx' % fnum(it['max']))
-        s.append('margin-left:%s' % ('auto' if it['ml'] == 'auto' else '%spx' % fnum(it['ml'])))
-        s.append('margin-right:%s' % ('auto' if it['mr'] == 'auto' else '%spx' % fnum(it['mr'])))
-        s.append('border-left:%dpx solid' % it['bl'])
-        s.append('border-right:%dpx solid' % it['br'])
-        s.append('padding-left:%dpx' % it['pl'])
-        s.append('padding-right:%dpx' % it['pr'])
+            s.append('max-%s:%spx' % (M, fnum(it['max'])))
+        s.append('margin-%s:%s' % (S, 'auto' if it['ml'] == 'auto' else '%spx' % fnum(it['ml'])))
+        s.append('margin-%s:%s' % (E, 'auto' if it['mr'] == 'auto' else '%spx' % fnum(it['mr'])))
+        s.append('border-%s:%dpx solid' % (S, it['bl']))
+        s.append('border-%s:%dpx solid' % (E, it['br']))
+        s.append('padding-%s:%dpx' % (S, it['pl']))
+        s.append('padding-%s:%dpx' % (E, it['pr']))
         if it['order']:
             s.append('order:%d' % it['order'])
         out.append('<div id="i%d" style="%s"></div>' % (it['id'], ';'.join(s)))
@@ -137,24 +150,30 @@ def row_impl_out(c, o):
     recs = o['items']
     if o['c'] is None or len(recs) != len(c['items']):
         return None
-    ys = sorted({r['y'] for r in recs if isinstance(r['y'], float)})
+    col = c.get('col', False)
+    mainp, crossp, mains = ('y', 'x', 'h') if col else ('x', 'y', 'w')
+    cs = sorted({r[crossp] for r in recs if isinstance(r[crossp], float)})
     out = []
     for r in recs:
-        if not all(isinstance(r[k], float) for k in ('x', 'y', 'w')):
+        if not all(isinstance(r[k], float) for k in ('x', 'y', 'w', 'h')):
             return None
-        out.append((int(r['id'][1:]), ys.index(r['y']), Fraction(r['x']), Fraction(r['w'])))
+        out.append((int(r['id'][1:]), cs.index(r[crossp]), Fraction(r[mainp]), Fraction(r[mains])))
     return out
 
 
 def coq_row_case(c, out):
     outs = '; '.join('(%s, %s, %s, %s)' % (zlit(i), zlit(l), qlit(x), qlit(w)) for i, l, x, w in out)
-    return '(%d%%nat, %s, %s, (%s, %s, %s), [%s], [%s])' % (
-        c['wrap'], 'true' if c['reverse'] else 'false', KWC[KW.index(c['kw'])], qlit(sum(c['ox'])), qlit(c['W']),
+    return '(%s, %d%%nat, %s, %s, (%s, %s, %s), [%s], [%s])' % (
+        'true' if c.get('col') else 'false', c['wrap'], 'true' if c['reverse'] else 'false', KWC[KW.index(c['kw'])], qlit(sum(c['ox'])), qlit(c['W']),
         qlit(c['gap']), '; '.join(coq_ritem(c, it) for it in c['items']), outs)
 
 
 def row_triggers(c, mask):
     """which reported deviation region (if any) a css-reference disagreement falls in"""
+    if c.get('col') and any(it['ml'] == 'auto' or it['mr'] == 'auto' for it in c['items']):
+        return SIG_AUTO_TB
+    if c.get('col') and c['kw'] == 'right':
+        return SIG_COLLR
     if c['reverse'] and c['kw'] == 'stretch':
         return SIG_STRETCH_REV
     if c['reverse'] and c['kw'] == 'space-between' and mask & 4:
@@ -164,7 +183,7 @@ def row_triggers(c, mask):
 
 def row_features(c):
     its = c['items']
-    return (len(its), c['wrap'], c['reverse'], c['kw'], c['gap'] > 0,
+    return (len(its), c.get('col', False), c['wrap'], c['reverse'], c['kw'], c['gap'] > 0,
             any(it['ml'] == 'auto' or it['mr'] == 'auto' for it in its),
             any(it['min'] is not None for it in its), any(it['max'] is not None for it in its),
             any(it['order'] for it in its), sum(1 for it in its if it['grow']), sum(1 for it in its if it['shrink']))
@@ -236,6 +255,8 @@ def check(run):
                     'harness/p_c12.py: translation of the generated CSS into model inputs (used flex basis, min/max, extras)']
     stream_rows(run, rng, 3000 if thorough else 400, 'plain', 'flex-row')
     stream_rows(run, rng, 2000 if thorough else 200, 'wide', 'flex-row-wide')
+    stream_monitor(run, rng, 3000 if thorough else 300, 'wrap', 'flex-monitor-wrap')
+    stream_monitor(run, rng, 3000 if thorough else 300, 'cross', 'flex-monitor-cross')
 
 
 def replay(data):
@@ -253,5 +274,232 @@ def replay(data):
         m = common.eval_cases('c12replay', PRE, 'row_case', [coq_row_case(c, out)], 'row_judge')
         print('replay: impl', [(i, l, float(x), float(w)) for i, l, x, w in out], 'judge mask', m)
         return 1 if m[0] & 3 else 0
+    if d.get('stream', '').startswith('flex-monitor'):
+        c = d['case']
+        gen, html, judge = MON[c['kind']]
+        (st, o), = common.run_impl('impl_c12', 'render_container', [{'html': html(c)}])
+        bad = judge(c, o) if st == 'ok' else [(st, o)]
+        print('replay:', bad[:5])
+        return 1 if bad else 0
     print('nothing to replay for', d.get('stream'))
     return 0
+
+
+# ------------------------------------------------------------------------------------------ flex monitor
+# Wider grammar judged in Python by the geometric reading of the property (no model): wrap / reverse /
+# align-items / align-self / text items / auto margins.
+
+EPS = 1e-6
+ALIGN = ['flex-start', 'flex-end', 'center', 'stretch', 'normal']
+
+
+def gen_mon_wrap(rng):
+    """multi-line row container, items of one cross size: order, gaps, containment, line stacking"""
+    n = rng.choice([2, 3, 4, 5, 6, 8])
+    W = rng.choice([100, 150, 200, 300, rng.randint(60, 400)])
+    items = []
+    for i in range(n):
+        it = {'id': i, 'order': rng.choice([0, 0, 0, 1, -1, 2]) if rng.random() < 0.3 else 0,
+              'text': rng.choice(['', '', 'abc', 'abcdefgh', 'ab cd']) if rng.random() < 0.4 else '',
+              'grow': rng.choice([0, 0, 1, 2]), 'shrink': rng.choice([0, 1, 1, 3]),
+              'basis': rng.choice(['auto', '%dpx' % rng.choice([20, 50, 80, 120]), '%d%%' % rng.choice([25, 50])]),
+              'w': rng.choice([None, 30, 60, 90]), 'min': rng.choice([None, None, 0, 40]), 'max': rng.choice([None, None, 100]),
+              'ml': rng.choice([0, 0, 5, 'auto']), 'mr': rng.choice([0, 0, 3, 'auto']),
+              'bp': rng.choice([0, 0, 1, 4])}
+        items.append(it)
+    return {'kind': 'wrap', 'W': W, 'cgap': rng.choice([0, 5, 10, 20]), 'rgap': rng.choice([0, 4, 12]),
+            'wrap': rng.choice(['wrap', 'wrap', 'wrap-reverse', 'nowrap']), 'reverse': rng.random() < 0.3,
+            'kw': rng.choice(['normal', 'flex-start', 'flex-end', 'center', 'space-between', 'space-around', 'space-evenly']),
+            'items': items}
+
+
+def mon_wrap_html(c):
+    st = ['display:flex', 'width:%dpx' % c['W'], 'column-gap:%dpx' % c['cgap'], 'row-gap:%dpx' % c['rgap'],
+          'flex-wrap:%s' % c['wrap'], 'flex-direction:%s' % ('row-reverse' if c['reverse'] else 'row'),
+          'justify-content:%s' % c['kw'], 'align-items:flex-start', 'margin:5px 0 0 11px']
+    out = ['<style>@page{size:3000px 3000px;margin:0}body{margin:0;font-family:weasyprint;font-size:10px;line-height:10px}'
+           '#c>div{height:20px}</style><div id="c" style="%s">' % ';'.join(st)]
+    for it in c['items']:
+        s = ['flex:%s %s %s' % (it['grow'], it['shrink'], it['basis'])]
+        if it['w'] is not None:
+            s.append('width:%dpx' % it['w'])
+        if it['min'] is not None:
+            s.append('min-width:%dpx' % it['min'])
+        if it['max'] is not None:
+            s.append('max-width:%dpx' % it['max'])
+        s.append('margin-left:%s' % ('auto' if it['ml'] == 'auto' else '%dpx' % it['ml']))
+        s.append('margin-right:%s' % ('auto' if it['mr'] == 'auto' else '%dpx' % it['mr']))
+        s.append('border-left:%dpx solid;padding-right:%dpx' % (it['bp'], it['bp']))
+        if it['order']:
+            s.append('order:%d' % it['order'])
+        out.append('<div id="i%d" style="%s">%s</div>' % (it['id'], ';'.join(s), it['text']))
+    out.append('</div>')
+    return ''.join(out)
+
+
+def _mbox(r):
+    """margin box (x0, x1, y0, y1) of an item record"""
+    x1 = r['x'] + r['ml'] + r['bl'] + r['pl'] + r['w'] + r['pr'] + r['br'] + r['mr']
+    y1 = r['y'] + r['mt'] + r['bt'] + r['pt'] + r['h'] + r['pb'] + r['bb'] + r['mb']
+    return r['x'], x1, r['y'], y1
+
+
+def _numeric(r):
+    return all(isinstance(r[k], float) for k in ('x', 'y', 'w', 'h', 'ml', 'mr', 'mt', 'mb', 'pl', 'pr', 'pt', 'pb',
+                                                  'bl', 'br', 'bt', 'bb'))
+
+
+def judge_mon_wrap(c, o):
+    """-> list of (clause, detail)"""
+    bad = []
+    box, recs = o['c'], o['items']
+    if box is None or len(recs) != len(c['items']) or not _numeric(box) or not all(_numeric(r) for r in recs):
+        return [('items-kept-numeric', 'container %s, %d of %d items' % (box is not None, len(recs), len(c['items'])))]
+    cx0 = box['x'] + box['ml'] + box['bl'] + box['pl']
+    cy0 = box['y'] + box['mt'] + box['bt'] + box['pt']
+    W = box['w']
+    if abs(W - c['W']) > EPS:
+        bad.append(('container-main-size', (W, c['W'])))
+    by = {int(r['id'][1:]): r for r in recs}
+    # lines = groups of equal y (one cross size, align-items:flex-start, no vertical margins)
+    ys = sorted({r['y'] for r in recs})
+    lines = [[i for i in by if by[i]['y'] == y] for y in ys]
+    if c['wrap'] == 'nowrap' and len(lines) != 1:
+        bad.append(('nowrap-single-line', len(lines)))
+    for ln in lines:
+        ln.sort(key=lambda i: by[i]['x'])
+        if c['reverse']:
+            ln.reverse()
+    if c['wrap'] == 'wrap-reverse':
+        lines.reverse()
+    # order-modified document order along the main axis, line after line
+    flat = [i for ln in lines for i in ln]
+    expect = sorted(by, key=lambda i: (c['items'][i]['order'], i))
+    if flat != expect:
+        bad.append(('order-modified-document-order', (flat, expect)))
+    for ln in lines:
+        boxes = [_mbox(by[i]) for i in ln]
+        if c['reverse']:
+            boxes.reverse()
+        total = sum(b[1] - b[0] for b in boxes) + (len(boxes) - 1) * c['cgap']
+        for a, b in zip(boxes, boxes[1:]):
+            if b[0] - a[1] < c['cgap'] - EPS:
+                bad.append(('items-separated-by-gap', (a[1], b[0], c['cgap'])))
+        if total <= W + EPS:
+            if boxes[0][0] < cx0 - EPS or boxes[-1][1] > cx0 + W + EPS:
+                bad.append(('items-inside-container-main-axis', (boxes[0][0], boxes[-1][1], cx0, cx0 + W)))
+        if len(ln) >= 2 and c['wrap'] != 'nowrap' and total > W + EPS:
+            # a multi-item line of a wrapping container fits, unless its items could not shrink to fit: their
+            # hypothetical sizes fitted (9.3), flexing never grows a line beyond the container (9.7)
+            bad.append(('wrapped-line-fits', (total, W)))
+        can_grow = any(c['items'][i]['grow'] > 0 and c['items'][i]['max'] is None for i in ln)
+        if can_grow and abs(total - W) > EPS and total < W:
+            bad.append(('line-with-growing-item-fills', (total, W)))
+    # lines are stacked along the cross axis without overlap, separated by the row gap
+    lys = [(min(_mbox(by[i])[2] for i in ln), max(_mbox(by[i])[3] for i in ln)) for ln in lines]
+    for a, b in zip(lys, lys[1:]):
+        if b[0] - a[1] < c['rgap'] - EPS:
+            bad.append(('lines-separated-by-gap', (a, b, c['rgap'])))
+    if lys and (lys[0][0] < cy0 - EPS or lys[-1][1] > cy0 + box['h'] + EPS):
+        bad.append(('lines-inside-container', (lys, cy0, box['h'])))
+    return bad
+
+
+def gen_mon_cross(rng):
+    """single-line row container: align-items / align-self / stretch along the cross axis"""
+    n = rng.choice([1, 2, 3, 4])
+    H = rng.choice([None, 60, 100, 150])
+    items = []
+    for i in range(n):
+        items.append({'id': i, 'self': rng.choice(['auto', 'auto'] + ALIGN), 'h': rng.choice([None, None, 20, 40]),
+                      'mt': rng.choice([0, 0, 4]), 'mb': rng.choice([0, 0, 6]), 'bp': rng.choice([0, 0, 2]),
+                      'text': rng.choice(['', '', 'abc'])})
+    return {'kind': 'cross', 'H': H, 'align': rng.choice(ALIGN), 'items': items,
+            'reverse': rng.random() < 0.2}
+
+
+def mon_cross_html(c):
+    st = ['display:flex', 'width:300px', 'align-items:%s' % c['align'], 'margin:5px 0 0 11px',
+          'flex-direction:%s' % ('row-reverse' if c['reverse'] else 'row')]
+    if c['H'] is not None:
+        st.append('height:%dpx' % c['H'])
+    out = ['<style>@page{size:3000px 3000px;margin:0}body{margin:0;font-family:weasyprint;font-size:10px;line-height:10px}'
+           '</style><div id="c" style="%s">' % ';'.join(st)]
+    for it in c['items']:
+        s = ['flex:none', 'width:30px', 'align-self:%s' % it['self'], 'margin-top:%dpx' % it['mt'],
+             'margin-bottom:%dpx' % it['mb'], 'border-top:%dpx solid' % it['bp'], 'padding-bottom:%dpx' % it['bp']]
+        if it['h'] is not None:
+            s.append('height:%dpx' % it['h'])
+        out.append('<div id="i%d" style="%s">%s</div>' % (it['id'], ';'.join(s), it['text']))
+    out.append('</div>')
+    return ''.join(out)
+
+
+def judge_mon_cross(c, o):
+    bad = []
+    box, recs = o['c'], o['items']
+    if box is None or len(recs) != len(c['items']) or not _numeric(box) or not all(_numeric(r) for r in recs):
+        return [('items-kept-numeric', 'container %s, %d of %d items' % (box is not None, len(recs), len(c['items'])))]
+    cy0 = box['y'] + box['mt'] + box['bt'] + box['pt']
+    by = {int(r['id'][1:]): r for r in recs}
+    boxes = {i: _mbox(by[i]) for i in by}
+    # single line: its cross size is the container's definite height, else the largest outer cross size
+    natural = max(b[3] - b[2] for b in boxes.values())
+    L = box['h']
+    if c['H'] is not None and abs(L - c['H']) > EPS:
+        bad.append(('container-cross-size', (L, c['H'])))
+    if c['H'] is None and abs(L - natural) > EPS:
+        bad.append(('auto-cross-size-is-largest-item', (L, natural)))
+    for it in c['items']:
+        i = it['id']
+        a = it['self'] if it['self'] != 'auto' else c['align']
+        if a == 'normal':
+            a = 'stretch'
+        y0, y1 = boxes[i][2], boxes[i][3]
+        if y0 < cy0 - EPS and y1 - y0 <= L + EPS:
+            bad.append(('item-inside-line', (i, y0, cy0)))
+        if a == 'flex-start' and abs(y0 - cy0) > EPS:
+            bad.append(('align-flex-start', (i, y0, cy0)))
+        if a == 'flex-end' and abs(y1 - (cy0 + L)) > EPS:
+            bad.append(('align-flex-end', (i, y1, cy0 + L)))
+        if a == 'center' and abs((y0 + y1) / 2 - (cy0 + L / 2)) > EPS:
+            bad.append(('align-center', (i, (y0 + y1) / 2, cy0 + L / 2)))
+        if a == 'stretch':
+            if abs(y0 - cy0) > EPS:
+                bad.append(('stretch-starts-at-line-start', (i, y0, cy0)))
+            if it['h'] is None and abs((y1 - y0) - L) > EPS:
+                bad.append(('stretch-fills-line', (i, y1 - y0, L)))
+    return bad
+
+
+MON = {'wrap': (gen_mon_wrap, mon_wrap_html, judge_mon_wrap), 'cross': (gen_mon_cross, mon_cross_html, judge_mon_cross)}
+
+
+def stream_monitor(run, rng, n, kind, name):
+    gen, html, judge = MON[kind]
+    cases = [gen(rng) for _ in range(n)]
+    docs = [{'html': html(c)} for c in cases]
+    outs = common.run_impl('impl_c12', 'render_container', docs, limit=60)
+    clauses, nbad = {}, 0
+    for c, d, (st, o) in zip(cases, docs, outs):
+        if st != 'ok':
+            run.fail('flex render %s: %s' % (st, (o or {}).get('site') if o else None),
+                     {'stream': name, 'case': c, 'html': d['html'], 'outcome': o},
+                     signature='crash:%s' % ((o or {}).get('site'),) if st == 'exc' else 'timeout')
+            continue
+        bad = judge(c, o)
+        for clause, detail in bad[:1]:
+            nbad += 1
+            clauses[clause] = clauses.get(clause, 0) + 1
+            if nbad <= 3:
+                run.fail('flex monitor clause %s fails: %s' % (clause, detail),
+                         {'stream': name, 'case': c, 'html': d['html'], 'clause': clause, 'detail': detail},
+                         signature='flexmon:%s' % clause)
+    feats = [(len(c['items']), c.get('wrap'), c.get('reverse'), c.get('kw'), c.get('align'), c.get('H')) for c in cases]
+    run.count(name, len(cases), feats, samples=[docs[0]['html'][:800]])
+    run.stream_info(name, judged_in='python', failing_clauses=clauses,
+                    rule={'wrap': 'row containers with wrap/wrap-reverse/nowrap, reverse, text and empty items, auto margins, '
+                                  'order; clauses: order-modified document order, gaps, containment, wrapped line fits, '
+                                  'growing line fills, line stacking',
+                          'cross': 'single-line row containers, align-items x align-self x auto/definite cross sizes; clauses: '
+                                   'flex-start/flex-end/center/stretch placement, stretch fills the line'}[kind])
